@@ -397,3 +397,25 @@ def random_ts(rng, n_obj=4):
         objects[o.lower() + "a"] = o
         objects[o.lower() + "b"] = o
     return {"types": types, "query": "Query", "mutation": "", "subscription": ""}, objects
+
+
+def wrapping_docs():
+    """Hand-picked documents over the exec family that reach a non-null leaf / object below every list and
+    nullability wrapping ([T!]!, [T!], [T], T!, T) -- the generators reach them only occasionally."""
+    def f(d, name, alias=""): return {"d": d, "k": "field", "name": name, "alias": alias, "on": "", "dir": ""}
+    def on(d, t): return {"d": d, "k": "inline", "name": "", "alias": "", "on": t, "dir": ""}
+    docs = [
+        [f(1, "nodes"), on(2, "A"), f(3, "nn"), f(2, "id")],
+        [f(1, "nodes"), on(2, "A"), f(3, "selfNN"), f(4, "nn")],
+        [f(1, "a"), f(2, "kidsNN"), on(3, "A"), f(4, "nn"), f(2, "n")],
+        [f(1, "a"), f(2, "kids"), on(3, "A"), f(4, "fnn"), f(2, "n")],
+        [f(1, "a"), f(2, "opt"), f(3, "nn"), f(3, "n"), f(2, "id")],
+        [f(1, "us"), on(2, "A"), f(3, "nn"), on(2, "B"), f(3, "b")],
+        [f(1, "ann"), f(2, "kidsNN"), f(3, "id"), on(3, "A"), f(4, "selfNN"), f(5, "nn"), f(1, "n")],
+        [f(1, "ann"), f(2, "selfNN"), f(3, "kidsNN"), on(4, "A"), f(5, "nn")],
+        [f(1, "node"), on(2, "A"), f(3, "kidsNN"), f(4, "peer"), f(5, "id"), f(3, "nn")],
+        [f(1, "u"), on(2, "A"), f(3, "opt"), f(4, "selfNN"), f(5, "fnn")],
+        [f(1, "a"), f(2, "u"), on(3, "A"), f(4, "kidsNN"), on(5, "A"), f(6, "nn"), f(2, "fail"), f(2, "guarded")],
+        [f(1, "nn"), f(1, "a"), f(2, "nn"), f(2, "e"), f(2, "f"), f(2, "label")],
+    ]
+    return [tree_from_flat(d, "query") for d in docs]
